@@ -127,6 +127,21 @@ def laws(rng, tier):
     out.append(('"a"/Byte + "b"/Int16ub', 'Struct("a"/Byte, "b"/Int16ub)', [b'\x01\x02\x03', b'\x01'], [dict(a=1, b=2), dict(a=1), None]))
     out.append(('Byte >> Int16ub', 'Sequence(Byte, Int16ub)', [b'\x01\x02\x03', b'\x01'], [[1, 2], [1], None]))
     out.append(('Byte >> Int16ub >> Flag', 'Sequence(Byte, Int16ub, Flag)', [b'\x01\x02\x03\x01', b'\x01'], [[1, 2, True], [1]]))
+    # operands that are composites of ANOTHER kind stay one member (only Struct + Struct and Sequence >> Sequence merge)
+    d3 = [b'\x01\x02\x03', b'\x01\x02', b'\x01', b'\x01\x02\x03\x04']
+    out.append(('Byte >> Struct("a"/Byte, "b"/Byte)', 'Sequence(Byte, Struct("a"/Byte, "b"/Byte))', d3, [[1, dict(a=2, b=3)], [1], [1, 2, 3]]))
+    out.append(('Struct("a"/Byte, "b"/Byte) >> Byte', 'Sequence(Struct("a"/Byte, "b"/Byte), Byte)', d3, [[dict(a=2, b=3), 1], [1, 2, 3]]))
+    out.append(('Byte >> Select(Int16ub, Byte)', 'Sequence(Byte, Select(Int16ub, Byte))', d3, [[1, 2], [1, 70000], [1, 2, 3]]))
+    out.append(('Byte >> FocusedSeq("x", "x"/Byte, "y"/Const(b"\\x00"))', 'Sequence(Byte, FocusedSeq("x", "x"/Byte, "y"/Const(b"\\x00")))', d3 + [b'\x01\x02\x00'], [[1, 2], [1, 2, None]]))
+    out.append(('Byte >> Union(None, "a"/Byte, "b"/Int16ub)', 'Sequence(Byte, Union(None, "a"/Byte, "b"/Int16ub))', d3, [[1, dict(a=2)], [1, dict(b=2)], [1, 2, 2]]))
+    out.append(('Sequence(Byte, Byte) >> Byte', 'Sequence(Byte, Byte, Byte)', d3, [[1, 2, 3], [[1, 2], 3]]))
+    out.append(('"h"/Byte + "q"/Sequence(Byte, Byte)', 'Struct("h"/Byte, "q"/Sequence(Byte, Byte))', d3, [dict(h=1, q=[2, 3]), dict(h=1)]))
+    out.append(('"h"/Byte + Sequence("x"/Byte, "y"/Byte)', 'Struct("h"/Byte, Sequence("x"/Byte, "y"/Byte))', d3, [dict(h=1, x=2, y=3), dict(h=1)]))
+    out.append(('Sequence("x"/Byte, "y"/Byte) + "h"/Byte', 'Struct(Sequence("x"/Byte, "y"/Byte), "h"/Byte)', d3, [dict(h=1, x=2, y=3), dict(h=1)]))
+    out.append(('"h"/Byte + Union(None, "a"/Byte, "b"/Int16ub)', 'Struct("h"/Byte, Union(None, "a"/Byte, "b"/Int16ub))', d3, [dict(h=1, a=2), dict(h=1)]))
+    out.append(('"h"/Byte + Select("a"/Int16ub, "b"/Byte)', 'Struct("h"/Byte, Select("a"/Int16ub, "b"/Byte))', d3, [dict(h=1), dict(h=1, a=2)]))
+    out.append(('Struct("a"/Byte) + Struct("b"/Byte)', 'Struct("a"/Byte, "b"/Byte)', d3, [dict(a=1, b=2), dict(a=1)]))
+    out.append(('"s"/Struct("a"/Byte) + "t"/Byte', 'Struct("s"/Struct("a"/Byte), "t"/Byte)', d3, [dict(s=dict(a=1), t=2), dict(a=1, t=2)]))
     out.append(('BitStruct("a"/BitsInteger(3), "b"/Flag, "c"/Nibble)', 'Bitwise(Struct("a"/BitsInteger(3), "b"/Flag, "c"/Nibble))', all_bytes(1, rng, 300) + [b''],
                 [dict(a=a, b=b, c=c) for a in (0, 7, 8) for b in (True, False) for c in (0, 15, 16)]))
     out.append(('BitStruct("a"/BitsInteger(12, signed=True), "b"/BitsInteger(4))', 'Bitwise(Struct("a"/BitsInteger(12, signed=True), "b"/BitsInteger(4)))',
